@@ -174,3 +174,13 @@ pub fn rotate<T>(v: &mut Vec<T>, seed: u64) {
         v.rotate_left(k);
     }
 }
+
+/// glibc's default malloc trims and re-grows the heap top for every world (tens of thousands of
+/// `brk` calls, as much system time as user time). Keep freed memory instead.
+pub fn tune_malloc() {
+    unsafe {
+        libc::mallopt(libc::M_TRIM_THRESHOLD, 1 << 30);
+        libc::mallopt(libc::M_TOP_PAD, 64 << 20);
+        libc::mallopt(libc::M_MMAP_THRESHOLD, 1 << 30);
+    }
+}
